@@ -6,12 +6,13 @@
     the scratch registers, and on every accepted program each recorded jump / call target is an instruction start inside
     the table resolve_jumps indexes; (3) the x86-64 encoders (emit_alu*, emit_mov, emit_push/pop, emit_load, emit_store,
     emit_load_imm with REX / ModRM / displacement selection) append exactly the bytes of the encoding specification X86Enc.v
-    for every register, displacement and immediate.  Which encoder calls jit_compile makes for each eBPF opcode, and what the
-    CPU does with the bytes, is exercised by checks/C03.py (every opcode x every register
+    for every register, displacement and immediate; (4) for the 38 ALU opcodes emitted directly, the emitted instruction
+    sequence computes the ISA value under the x86 semantics X86Sem.v.  The other opcodes (mul/div/mod shuffling, memory,
+    jumps, calls, prologue/epilogue) and what the CPU does with the bytes are exercised by checks/C03.py (every opcode x every register
     pair x boundary immediates / displacements x control-flow shapes x 4 VM kinds) against the interpreter. *)
 From Coq Require Import ZArith List.
-From RbpfV Require Import MachInt Ebpf WellFormed Verifier JitLogicProofs X86Enc JitEncProofs.
-From RbpfV.gen Require Import JitLogic JitEnc.
+From RbpfV Require Import MachInt Ebpf WellFormed Verifier JitLogicProofs X86Enc JitEncProofs X86Sem ClAluProofs JitArmsProofs.
+From RbpfV.gen Require Import JitLogic JitEnc JitArms.
 Import ListNotations.
 Open Scope Z_scope.
 
@@ -57,6 +58,14 @@ Theorem C03_enc_load_imm : forall mem r imm, 0 <= r < 16 -> - 2 ^ 63 <= imm < 2 
   gen_emit_load_imm mem r imm = Ok (mem ++ x_load_imm r imm).
 Proof. exact emit_load_imm_spec. Qed.
 
+(** per-opcode emission, ALU: for each of the 38 ALU opcodes translated directly (all but mul / div / mod and the byte swaps),
+    the x86 instructions jit_compile emits (regenerated; semantics X86Sem.v) leave the ISA value in the destination's x86
+    register and change no register other than it and the scratch RCX -- all operand values, all register assignments *)
+Theorem C03_alu_arms : forall i R d s,
+  (forall r, 0 <= R r < 2 ^ 64) -> d <> 1 -> - 2 ^ 31 <= imm i < 2 ^ 31 ->
+  Forall (fun o => arm_ok o i R d s) jit_alu_ops.
+Proof. exact jit_alu_arms. Qed.
+
 (** non-vacuity: `mov rbx, [r13+0]` needs a displacement byte; `mov [rdi-129], r9d` takes the 4-byte form *)
 Example C03_enc_example :
   gen_emit_load [] 64 13 3 0 = Ok [0x49; 0x8b; 0x5d; 0x00] /\
@@ -69,5 +78,6 @@ Print Assumptions C03_enc_alu.
 Print Assumptions C03_enc_load.
 Print Assumptions C03_enc_store.
 Print Assumptions C03_enc_load_imm.
+Print Assumptions C03_alu_arms.
 Print Assumptions C03_jump_targets.
 Print Assumptions C03_call_targets.
